@@ -4,6 +4,11 @@ R = "src/eolib/data/eo_reader.py"
 W = "src/eolib/data/eo_writer.py"
 S = "src/eolib/packet/sequence_start.py"
 Q = "src/eolib/packet/packet_sequencer.py"
+F = "protocol_code_generator/generate/field_code_generator.py"
+O = "protocol_code_generator/generate/object_code_generator.py"
+SW = "protocol_code_generator/generate/switch_code_generator.py"
+T = "protocol_code_generator/type/type_factory.py"
+E = "src/eolib/protocol/protocol_enum_meta.py"
 
 MUTANTS = [
     # ---- C05 reader
@@ -89,4 +94,31 @@ MUTANTS = [
     dict(id="sequencer-class-level-counter", property="C13", what="counter shared between sequencer instances",
          edits=[dict(file=Q, old="        self._counter = (self._counter + 1) % 10", new="        PacketSequencer._counter = (self._counter + 1) % 10"),
                 dict(file=Q, old="        self._counter = 0\n", new="        PacketSequencer._counter = 0\n")]),
+    # ---- C03 hostile bytes (generator and reader mutations)
+    dict(id="gen-optional-guard-ge-zero", property="C03", what="optional guard is `remaining >= 0` (optional field always read)",
+         edits=[dict(file=F, old='begin_control_flow("if reader.remaining > 0")', new='begin_control_flow("if reader.remaining >= 0")')]),
+    dict(id="gen-array-delimiter-guard-off-by-one", property="C03", what="non-trailing delimiter also skipped after the last element",
+         edits=[dict(file=F, old='begin_control_flow(f"if i + 1 < {array_length_expression}")', new='begin_control_flow(f"if i < {array_length_expression}")')]),
+    dict(id="gen-unbounded-array-count-ceil", property="C03", what="fixed-size element count rounds up (partial trailing element read)",
+         edits=[dict(file=F, old='f"{array_length_variable_name} = int(reader.remaining / {element_size})"', new='f"{array_length_variable_name} = -(-reader.remaining // {element_size})"')]),
+    dict(id="gen-delimited-array-missing-next-chunk-when-unbounded", property="C03", what="delimited array without length never moves to the next chunk",
+         edits=[dict(file=F, old='            self._data.deserialize.add_line("reader.next_chunk()")\n            if needs_guard:', new='            if array_length_expression is not None:\n                self._data.deserialize.add_line("reader.next_chunk()")\n            else:\n                self._data.deserialize.add_line("reader.get_byte()")\n            if needs_guard:')]),
+    dict(id="enum-meta-no-fallback-above-short", property="C03", also=["C14"], what="unknown ordinals >= 64009 raise ValueError instead of becoming Unrecognized",
+         edits=[dict(file=E, old="        except ValueError:\n", new="        except ValueError:\n            if int(value) >= 64009:\n                raise\n")]),
+    dict(id="reader-read-bytes-unclipped-in-chunk", property="C03", also=["C05"], what="_read_bytes clips to the end of data, not to the chunk",
+         edits=[dict(file=R, old="        length = min(length, self.remaining)\n", new="        length = min(length, len(self._data) - self._position)\n")]),
+    dict(id="gen-chunked-exit-keeps-mode", property="C03", also=["C15"], what="</chunked> does not switch chunked reading off again",
+         edits=[dict(file=O, old='            self._data.deserialize.add_line("reader.chunked_reading_mode = False")\n', new='')]),
+    dict(id="gen-struct-fixed-size-ignores-optional", property="C03", what="fixed struct size computed although a field is optional",
+         edits=[dict(file=T, old='        if protocol_field.get("optional"):\n            # Nothing can be optional in a fixed-size struct\n            return None\n', new='')]),
+    dict(id="gen-length-offset-sign", property="C03", what="length offset applied with the wrong sign when reading offsets below -1",
+         edits=[dict(file=F, old="""            offset_expression = FieldCodeGenerator._get_length_offset_expression(self._offset)
+            if offset_expression is not None:
+                read_basic_type += offset_expression""", new="""            offset_expression = FieldCodeGenerator._get_length_offset_expression(
+                self._offset if self._offset >= -1 else -self._offset
+            )
+            if offset_expression is not None:
+                read_basic_type += offset_expression""")]),
+    dict(id="gen-switch-default-becomes-elif-false", property="C03", what="default case body never taken when the switch field is an unknown enum ordinal",
+         edits=[dict(file=SW, old="            self._data.deserialize.begin_control_flow('else')", new="            self._data.deserialize.begin_control_flow(f'elif not {self._field_name}.name.startswith(\"Unrecognized\")' if isinstance(self._field_data.type_, EnumType) else 'else')")]),
 ]
